@@ -48,6 +48,20 @@ async def scenario(name, max_cores, build, problems):
             got = s.task_states.get(tid)
             if got is not None and final(got) and got not in (want if isinstance(want, tuple) else (want,)):
                 problems.append(f"{name}: task {tid} ended {got.name}, expected {want}")
+        # C12/C13: a task in a final state has no live process (scripts that record their pid in <name>.pid)
+        await asyncio.sleep(0.3)
+        for pf in d.glob("*.pid"):
+            try:
+                pid = int(pf.read_text().strip())
+            except ValueError:
+                continue
+            alive = os.path.exists(f"/proc/{pid}") and "Z" not in open(f"/proc/{pid}/stat").read().split(")")[-1].split()[0]
+            if alive:
+                problems.append(f"{name}: every task is in a final state but the process {pid} of task {pf.stem} is still alive")
+                try:
+                    os.kill(pid, 9)
+                except OSError:
+                    pass
         if s.cores_ressource._value != max_cores:
             problems.append(f"{name}: at quiescence the core semaphore holds {s.cores_ressource._value} units, "
                             f"the pool has {max_cores} cores")
@@ -139,6 +153,15 @@ async def run_all(problems):
             problems.append("cancel: the process of the cancelled task kept running and wrote a file afterwards")
         return {a: L.CANCELLED}
 
+    async def cancel_during_timeout_kill(s, d):
+        # the task ignores SIGTERM, runs into its time limit, and is cancelled while the pool is killing it;
+        # a second task is waiting for the only core
+        a = await s.enqueue_task("a", "trap '' TERM; echo $$ > a.pid; exec sleep 6", str(d), 0.5, [])
+        b = await s.enqueue_task("b", "echo $$ > b.pid; exec sleep 0.5", str(d), None, [])
+        await asyncio.sleep(0.9)
+        await s.cancel_task(a)
+        return {a: (L.CANCELLED, L.KILLED), b: L.COMPLETED}
+
     async def no_logs_dir(s, d):
         shutil.rmtree(d / ".gwf" / "logs")
         a = await s.enqueue_task("a", "exit 0", str(d), None, [])
@@ -151,7 +174,8 @@ async def run_all(problems):
                             ("cancel running / finished", 2, cancel_running_and_finished),
                             ("time limit", 1, timeout), ("log directory missing", 1, no_logs_dir),
                             ("two dependencies, one slow", 2, two_deps), ("time limit kills the process", 1, timeout_kills),
-                            ("cancel kills the process", 1, cancel_kills)):
+                            ("cancel kills the process", 1, cancel_kills),
+                            ("cancel while the time-out handler kills a TERM-ignoring task", 1, cancel_during_timeout_kill)):
         try:
             await asyncio.wait_for(scenario(name, cores, fn, problems), timeout=40)
         except asyncio.TimeoutError:
@@ -170,7 +194,7 @@ def replay(eng, ob, model, seed):
     finally:
         logging.disable(logging.NOTSET)
     if not problems:
-        return {"failed_on_real_code": False, "candidates_tried": 12, "bound": "12 fixed scenarios, <= 5 tasks, 1-2 cores"}
+        return {"failed_on_real_code": False, "candidates_tried": 13, "bound": "13 fixed scenarios, <= 5 tasks, 1-2 cores"}
     p = " ".join(problems)
     wc = "core-semaphore-over-released" if "semaphore holds" in p or "RUNNING at once" in p else (
         "task-left-in-non-final-state" if "is left in state" in p else "local-other")
